@@ -1,5 +1,5 @@
 """C18 - demuxes, switches, hubs, splitters and fat-tree FIBs deliver to the right place"""
-from . import netdev as N, tcp as T, elements
+from . import netdev as N, tcp as T, elements, deps
 
 def check(ctx):
     N.run_tables(ctx, 'C18', [('FlowDemux', '__init__'), ('FlowDemux', 'put'), ('RandomDemux', '__init__'),
@@ -15,6 +15,7 @@ def check(ctx):
     elements.element_id_defined(ctx, 'C18')
     elements.class_method_sets(ctx, 'C18', only=('FlowDemux', 'RandomDemux', 'FIBDemux', 'SimplePacketSwitch',
                                                    'FairPacketSwitch', 'Hub', 'Splitter', 'NSplitter', 'FatTree', 'Packet'))
+    deps.element_layers(ctx, 'C18')
     return ('Static: FlowDemux.put (0 <= f < len(outs) else default else nowhere), FIBDemux.put (end device, table, '
             'default; an empty table is a table), the switch constructors, Hub (source exclusion, per-endpoint output), '
             'Splitter/NSplitter (original to the first output, a fresh copy per other output), Packet.__copy__ (no shared '
